@@ -4,7 +4,7 @@ list=$1; wt=${2:-/tmp/reeval-l}
 git -C /repo worktree remove --force $wt 2>/dev/null; rm -rf $wt
 git -C /repo worktree add -q --detach $wt HEAD || exit 2
 head=$(git -C /repo log --format=%h -1)
-sib() { case $1 in C08-r4-3) echo "C08 C11";; C17-r3-1) echo "C17 C08";; C17-r3-2|C17-r3-3) echo "C17 C05";; C17-r4-3) echo "C17 C18";; C17-r2-2) echo "C17 C04";; C17-r2-3) echo "C17 C01";;
+sib() { case $1 in C08-r4-3) echo "C08 C11";; C17-r3-1) echo "C17 C08";; C17-r3-2|C17-r3-3) echo "C17 C05";; C17-r4-3) echo "C17 C18";; C17-r2-2) echo "C17 C04";; C17-r2-3) echo "C17 C01";; C17-2) echo "C17 C09";;
   C18-r2-1) echo "C18 C05";; C18-r2-2) echo "C18 C04";; C18-r4-1) echo "C18 C06";; *) echo $(echo $1 | cut -c1-3);; esac; }
 for id in $(cat $list); do
   d=/verif/seeded/$id
